@@ -18,13 +18,15 @@ def scenarios(ctx):
     quick = ctx.quick
     out = []
     Q = [{"r": 1}, {"f": 1}, {"k": 1}, {"p": 1}]
-    T = [{"r": 1, "f": 1}, {"f": 2}, {"k": 1, "f": 1}, {"k": 1, "r": 1}, {"r": 2}, {"p": 2}, {"p": 1, "r": 1}]
-    B = Q if quick else T
+    # thorough: pairs of deviations (each pair ~2*10^5 group executions per scenario); mid-cascade injections (p) are already
+    # several thousand per run, so they are paired only with nothing
+    T = [{"r": 1, "f": 1}, {"k": 1, "r": 1}, {"r": 2}, {"p": 1}, {"k": 1}]
+    B = Q if quick else Q + [{"r": 2}]
     e = gc.errs(membership=False)
     tail = dict(h_conv=5.5, stable=0.5)
     for a in ("range", "roundrobin", "sticky"):
         members = [dict(topics=["t"], assignors=[a]), dict(topics=["t"], assignors=[a], start=1.0)]
-        out.append((f"same-sub-{a}", gc.two_members(errs=e, members=members, stretch=True, **tail), B if a == "range" else Q))
+        out.append((f"same-sub-{a}", gc.two_members(errs=e, members=members, stretch=True, **tail), (Q if quick else T) if a == "range" else Q))
     out.append(("different-subs", gc.two_members(errs=e, topics={"t": 2, "u": 2}, stretch=True,
                                                  members=[dict(topics=["t", "u"], assignors=["roundrobin"]),
                                                           dict(topics=["u"], assignors=["roundrobin"], start=0.8)], **tail), B))
